@@ -47,6 +47,8 @@ pub fn run(cx: &mut Ctx) {
     tables(cx, &src);
     parse_order(cx, &src);
     padding(cx, &src);
+    flag_accumulation(cx);
+    crate::rules::float_rules::float_renderer(cx, "C19.G1");
 }
 
 fn peek_dominance(cx: &mut Ctx, src: &sm::Src) {
@@ -250,5 +252,44 @@ fn padding(cx: &mut Ctx, src: &sm::Src) {
         } else {
             cx.fail(rule, &format!("{}/{}", rule, k), &src.rel, &format!("expected padding shape not found: {}", what));
         }
+    }
+}
+
+/// F1: flags are accumulated idempotently.
+fn flag_accumulation(cx: &mut Ctx) {
+    let rule = "C19.F1";
+    cx.rule(rule, "parse_flags accumulates the conversion flags with set union (`|=` / insert): a flag character repeated any number of times sets its flag, as in Python (`%005d`, `%--5d`); no other operator writes the flag set");
+    cx.floor(rule, 1);
+    let src = match sm::load(&cx.repo, "format/src/cformat.rs") {
+        Ok(s) => s,
+        Err(e) => return cx.anchor_missing(rule, &e),
+    };
+    let Some(f) = src.free_fns("parse_flags").into_iter().next() else { return cx.anchor_missing(rule, "parse_flags") };
+    let mut writes: Vec<String> = vec![];
+    sm::for_each_expr_in_block(&f.block, |e| match e {
+        syn::Expr::Binary(b) if sm::tsc(&b.left) == "flags" => {
+            let op = sm::ts(&b.op);
+            if op.ends_with('=') && !["==", "!=", "<=", ">="].contains(&op.as_str()) {
+                writes.push(op);
+            }
+        }
+        syn::Expr::Assign(a) if sm::tsc(&a.left) == "flags" => {
+            let r = sm::tsc(&a.right);
+            writes.push(if r.starts_with("flags|") || r.ends_with("|flags") { "|=".into() } else { format!("={}", r) });
+        }
+        syn::Expr::MethodCall(mc) if sm::tsc(&mc.receiver) == "flags" => {
+            let m = mc.method.to_string();
+            if ["insert", "set"].contains(&m.as_str()) {
+                writes.push("|=".into());
+            } else if ["toggle", "remove", "clear"].contains(&m.as_str()) {
+                writes.push(m);
+            }
+        }
+        _ => {}
+    });
+    if !writes.is_empty() && writes.iter().all(|w| w == "|=") {
+        cx.ok(rule, &format!("parse_flags: {} write(s) of the flag set, all unions", writes.len()));
+    } else {
+        cx.fail(rule, &format!("{}/accumulate", rule), &src.loc(f), &format!("parse_flags writes the flag set with {:?}: a repeated flag character must keep the flag set (only `|=` / insert do)", writes));
     }
 }
